@@ -60,6 +60,7 @@ Definition type_str (t : mtype) : bytes :=
   | TF => str "f" | TD => str "d" | TLD => str "ld" | TP => str "p"
   | TBLK n => str "blk" ++ p_nat (Z.of_N n)
   | TRBLK => str "rblk"
+  | TUNDEF => str "undef"
   end.
 
 Definition comma : bytes := str ", ".
@@ -170,7 +171,7 @@ Section Printer.
     | TU8 | TU16 | TU32 | TU64 => p_nat z
     | TF => fmtF z | TD => fmtD z | TLD => fmtLD z
     | TP => str "0x" ++ p_hex z
-    | TBLK _ | TRBLK => []
+    | TBLK _ | TRBLK | TUNDEF => []
     end.
 
   Definition p_optname (n : option name) : bytes :=
